@@ -1,9 +1,9 @@
 SPECIFICATION Spec
 CONSTANTS
   N = 7
-  NLen <- cNLen
+  NLen <- cNLenInl
   G <- G1kCsum
-  Inline = FALSE
+  Inline = TRUE
   MaxBlocks = 9
 INVARIANT InvChain
 INVARIANT InvLive
